@@ -48,7 +48,8 @@ theorem rdPlainI_of_canon {p : Bytes} {t l rs : Nat} {rd : Bytes} (hfit : rs + l
 theorem piece_shape {sec : Section} {rc : Bytes} {ob oa : Bool} (h : PieceOK sec rc ob oa) :
     ∃ (owner : List (List UInt8)) (f8 rd : Bytes),
       rc = (encLabels owner ++ [0]) ++ f8 ++ put16 rd.length ++ rd ∧ GoodLabels owner ∧ f8.length = 8 ∧ rd.length < 65536 ∧
-      (get16 f8 0 ≠ 41 → RdPlainI (get16 f8 0) rd ∧ oa = ob) := by
+      (get16 f8 0 ≠ 41 → RdPlainI (get16 f8 0) rd ∧ oa = ob) ∧
+      (get16 f8 0 = 41 → owner = [] ∧ ob = false ∧ oa = true) := by
   obtain ⟨p0, r0, hr, hc⟩ := h
   obtain ⟨owner, rd, hvo, hrd, hrc⟩ := hc
   obtain ⟨hne, h10, hnext, hfit, hbody⟩ := hr
@@ -62,21 +63,29 @@ theorem piece_shape {sec : Section} {rc : Bytes} {ob oa : Bool} (h : PieceOK sec
   have hl : get16 p0 (r0.ne + 8) < 65536 := get16_lt _ _
   by_cases h41 : get16 p0 r0.ne = 41
   · simp only [h41, if_true] at hbody
-    obtain ⟨_, _, _, _, n, htile⟩ := hbody
+    obtain ⟨_, hne1, hob, hoa, n, htile⟩ := hbody
     have hb : (if get16 p0 r0.ne = 41 then ∃ n, OptionsTile p0 (r0.ne + 10) (r0.ne + 10 + get16 p0 (r0.ne + 8)) n
         else RDataOK p0 (get16 p0 r0.ne) (get16 p0 (r0.ne + 8)) (r0.ne + 10)) := by
       simp only [h41, if_true]; rw [← hnext]; exact ⟨n, htile⟩
     obtain ⟨hlt, _, _⟩ := rdcanon_placed (A := []) (B := []) (u := rd) (by omega) hl hb hrd (by simp)
-    refine ⟨owner, _, rd, hrc, validName_ok hvo, hf8, hlt, ?_⟩
-    intro hne41
-    rw [hty] at hne41
-    exact absurd h41 hne41
+    refine ⟨owner, _, rd, hrc, validName_ok hvo, hf8, hlt, ?_, ?_⟩
+    · intro hne41
+      rw [hty] at hne41
+      exact absurd h41 hne41
+    · intro _
+      have : owner = [] := by
+        rw [hne1] at hvo
+        exact owner_nil hvo
+      exact ⟨this, hob, hoa⟩
   · simp only [h41, if_false] at hbody
     obtain ⟨hlt, hpl⟩ := rdPlainI_of_canon (by omega) hl h41 hbody.1 hrd
-    refine ⟨owner, _, rd, hrc, validName_ok hvo, hf8, hlt, ?_⟩
-    intro _
-    rw [hty]
-    exact ⟨hpl, hbody.2⟩
+    refine ⟨owner, _, rd, hrc, validName_ok hvo, hf8, hlt, ?_, ?_⟩
+    · intro _
+      rw [hty]
+      exact ⟨hpl, hbody.2⟩
+    · intro h
+      rw [hty] at h
+      exact absurd h h41
 
 /-- a non-OPT piece of that shape fits under any flag -/
 theorem piece_of_shape (sec : Section) (owner : List (List UInt8)) (f8 rd : Bytes) (ho : GoodLabels owner) (hf8 : f8.length = 8)
@@ -115,7 +124,7 @@ theorem pieces_shape_split {sec : Section} {ps1 ps2 : List Bytes} {rc : Bytes} {
   obtain ⟨om, h1, h2⟩ := Pieces.split h
   cases h2 with
   | @cons _ _ _ om' _ hp hrest =>
-    obtain ⟨owner, f8, rd, hrc, hgo, hf8, hlt, hnon⟩ := piece_shape hp
+    obtain ⟨owner, f8, rd, hrc, hgo, hf8, hlt, hnon, _⟩ := piece_shape hp
     refine ⟨owner, f8, rd, hrc, hgo, hf8, hlt, ?_⟩
     intro h41
     obtain ⟨hpl, hflag⟩ := hnon h41
